@@ -1,12 +1,12 @@
 """C04 — run-to-quiescence; same outcome on any executor."""
 import simgen, oracles
-from props import simprops, poolprops, injprops, chanprops, confprops
+from props import simprops, poolprops, injprops, chanprops, confprops, bsprops
 
 HARNESS = ("simh", "atomh")
 TRUSTED = ["the work-stealing / parking protocol of the multi-threaded executor (pool_manager.rs, mt_executor.rs, injector.rs, st3, parking) is NOT modelled: it is exercised only through real runs on 2..16 threads whose outcome must equal the model's; seeded delays (yield / sleep up to 300 us) at 15 protocol points of mt_executor.rs and pool_manager.rs (hooks nexosim::verif, cfg nexosim_verif) perturb the parking / idle hand-off in the delayed-executors part; the barrier protocol itself is modelled in Pool.v"]
 TRUSTED = TRUSTED + poolprops.TRUSTED + injprops.TRUSTED + chanprops.TRUSTED + confprops.TRUSTED
 ASSUMPTIONS = ["handlers await only port operations; DAG topologies (no schedule-dependent stall)"]
-ORACLES = (oracles.o_harness, oracles.o_exactly_once, oracles.o_time)
+ORACLES = (oracles.o_harness, oracles.o_exactly_once, oracles.o_sink_closure, oracles.o_time)
 
 
 def nontrivial(c, mobs):
@@ -19,6 +19,8 @@ def tie(rep, tier, rng, model_ok):
     injprops.run(rep, tier, rng, model_ok)
     chanprops.run(rep, tier)
     confprops.run(rep, tier, rng, model_ok)
+    # the wake-up protocol of a broadcast's sub-tasks (util/task_set.rs): a lost notification leaves a handler half-way with Ok
+    bsprops.run_taskset(rep, "taskset-schedules", rng, 1200 if q else 30000, model_ok)
     a = simprops.corpus_cases("C04") + [simgen.gen_net(rng) for _ in range(250 if q else 6000)]
     b = [simgen.gen_multi(rng) for _ in range(150 if q else 4000)]
     w = [simgen.gen_wide(rng) for _ in range(6 if q else 60)]
